@@ -272,7 +272,7 @@ pub fn parse_vlq_segment(segment: &str) -> Result<Vec<i64>> {
 
 /// Parses a VLQ segment into a pre-allocated `Vec` instead of returning a new allocation.
 pub(crate) fn parse_vlq_segment_into(segment: &str, rv: &mut Vec<i64>) -> Result<()> {
-    let mut cur = 0;
+    let mut cur: i64 = 0;
     let mut shift = 0;
 
     for c in segment.bytes() {
@@ -282,7 +282,13 @@ pub(crate) fn parse_vlq_segment_into(segment: &str, rv: &mut Vec<i64>) -> Result
         }
         let val = enc & 0b11111;
         let cont = enc >> 5;
-        cur += val.checked_shl(shift).ok_or(Error::VlqOverflow)?;
+        // the digit must fit: `checked_shl` only validates the shift amount, not the bits
+        // that are shifted out of the 13th digit
+        let shifted = val.checked_shl(shift).ok_or(Error::VlqOverflow)?;
+        if shifted < 0 || shifted >> shift != val {
+            return Err(Error::VlqOverflow);
+        }
+        cur = cur.checked_add(shifted).ok_or(Error::VlqOverflow)?;
         shift += 5;
 
         if cont == 0 {
